@@ -29,13 +29,9 @@ def mapping_total(prog, qname):
     f = prog.functions.get(qname)
     if f is None:
         return False
-    got = set()
-    for i in walk_no_nested(f.node):
-        if isinstance(i, ast.If):
-            b = match(i.test, 'type(error) is $C')
-            if b is not None:
-                got.add(norm(b['C']))
-    return got >= {'nfc.clf.TimeoutError', 'nfc.clf.TransmissionError', 'nfc.clf.ProtocolError'}
+    from .c16 import error_mapping
+    got, g = error_mapping(prog, f)
+    return set(got) >= {'nfc.clf.TimeoutError', 'nfc.clf.TransmissionError', 'nfc.clf.ProtocolError'}
 
 
 def rule_escape(report, prog, res):
